@@ -87,7 +87,15 @@ func runBin(bin, dir string, args []string, env []string, timeout time.Duration)
 }
 
 func (c *Ctx) runMockery(dir string, args []string, env []string) RunResult {
-	return runBin(c.Mockery, dir, args, env, 60*time.Second)
+	r := runBin(c.Mockery, dir, args, env, 60*time.Second)
+	if r.TimedOut {
+		// a loaded machine (several checks at once; replace-type loads further packages) is not a hang: one more
+		// try with a generous bound decides. Every run is a pure function of the tree, which a killed run may have
+		// left half written only at its own output paths; the callers that look at those compare with the model of a
+		// complete run either way.
+		r = runBin(c.Mockery, dir, args, env, 300*time.Second)
+	}
+	return r
 }
 
 // treeHashes: rel path → sha256 (files), "dir" for directories.
